@@ -472,15 +472,44 @@ def stream_array_contract(ctx, drv, st, n):
                                                                                "model": r2})
 
 
+def _spy_ncon_output(arrays, indices):
+    """What `ncon` hands to `array_contract` (observed through a wrapper installed for the duration of one
+    call; `None` when ncon no longer goes through the module-level name -- then nothing is compared)."""
+    import cotengra.interface as I
+    orig = I.array_contract
+    seen = {}
+
+    def spy(arrays_, inputs, output=None, *a, **k):
+        seen["inputs"] = [list(t) for t in inputs]
+        seen["output"] = None if output is None else list(output)
+        return orig(arrays_, inputs, output, *a, **k)
+    I.array_contract = spy
+    try:
+        I.ncon(arrays, [list(t) for t in indices])
+    except Exception:
+        pass
+    finally:
+        I.array_contract = orig
+    return seen or None
+
+
 def stream_ncon(ctx, drv, st, n):
+    """ncon: negative labels are the output (-1, -2, ... in that order, each once), everything else is summed.
+    Labels may repeat: a negative label twice on one tensor (diagonal kept), on several tensors (batch /
+    hyper output index), a positive label once (summed alone), twice (ordinary bond), three times (hyper)."""
     letters = "abcdefghijklmnopqrstuvwxyz"
     for _ in range(n):
         if ctx.time_left() < 15:
             return
-        nops = ctx.rng.choice([1, 2, 2, 3, 3])
+        nops = ctx.rng.choice([1, 1, 2, 2, 3, 3])
         nout = ctx.rng.randrange(0, 4)
         ncon_ = ctx.rng.randrange(0, 4)
-        slots = [-(k + 1) for k in range(nout)] + [k + 1 for k in range(ncon_)] * 2
+        plain = ctx.rng.random() < 0.4
+        slots = []
+        for k in range(nout):
+            slots += [-(k + 1)] * (1 if plain else ctx.rng.choice([1, 1, 1, 2, 2, 3]))
+        for k in range(ncon_):
+            slots += [k + 1] * (2 if plain else ctx.rng.choice([2, 2, 2, 1, 3]))
         ctx.rng.shuffle(slots)
         indices = [[] for _ in range(nops)]
         for s in slots:
@@ -492,8 +521,15 @@ def stream_ncon(ctx, drv, st, n):
         ref_eq = ",".join("".join(lm[s] for s in t) for t in indices) + "->" + "".join(lm[-(k + 1)] for k in range(nout))
         case = {"kind": "ncon", "shapes": shapes, "data": [[int(v) for v in x.ravel()] for x in arrays],
                 "indices": indices, "ref_eq": ref_eq}
-        ctx.case(case, nontrivial=nout >= 2 and nops >= 2, sample=False)
+        rep_neg = any(slots.count(-(k + 1)) > 1 for k in range(nout))
+        rep_neg_same = any(t.count(s) > 1 for t in indices for s in t if s < 0)
+        ctx.case(case, nontrivial=(nout >= 2 and nops >= 2) or rep_neg, sample=False)
         ctx.count("ncon:out%d" % nout)
+        ctx.count("ncon:ops%d" % nops)
+        if rep_neg:
+            ctx.count("ncon:negative-label-repeated" + ("-within-one-tensor" if rep_neg_same else "-across-tensors"))
+        if any(slots.count(k + 1) != 2 for k in range(ncon_)):
+            ctx.count("ncon:positive-label-not-twice")
         ok, detail = run_real(case)
         if not ok:
             ctx.violation({"site": "ncon"}, case, f"ncon(indices={indices}) vs numpy {ref_eq!r}: {detail}")
@@ -503,6 +539,16 @@ def stream_ncon(ctx, drv, st, n):
         want = sorted({s for s in slots if s < 0}, reverse=True)
         if resp.get("output") != want:
             ctx.corr_broken("ncon output order differs from the model", {"indices": indices, "model": resp})
+            continue
+        # the real output list handed to array_contract versus the model's nconOutput
+        seen = _spy_ncon_output(arrays, indices)
+        if seen is None or seen.get("output") is None:
+            ctx.count("ncon:output-not-observable")
+        else:
+            ctx.count("ncon:output-observed")
+            if seen["output"] != resp.get("output") or seen["inputs"] != [list(t) for t in indices]:
+                ctx.corr_broken("ncon: (inputs, output) handed to array_contract differ from the model's nconOutput",
+                                {"indices": indices, "real": seen, "model": resp})
 
 
 def stream_single(ctx, drv, st):
